@@ -955,6 +955,11 @@ class _Linalg:
         d = _obj(m)
         if d.shape == (2, 2):
             return _sc(d[0, 0]) * d[1, 1] - _sc(d[0, 1]) * d[1, 0]
+        if d.ndim == 3 and d.shape[1:] == (2, 2):  # stack of 2x2 matrices
+            out = _np.empty(d.shape[0], dtype=object)
+            for k in range(d.shape[0]):
+                out[k] = _sc(d[k, 0, 0]) * d[k, 1, 1] - _sc(d[k, 0, 1]) * d[k, 1, 0]
+            return SA(out)
         raise Unsupported("det of symbolic matrix larger than 2x2")
 
     def __getattr__(self, name):
